@@ -12,6 +12,7 @@ package main
 import (
 	"bytes"
 	"compress/gzip"
+	"encoding/hex"
 	"io"
 	"io/fs"
 	"math/rand"
@@ -39,6 +40,7 @@ type desc struct {
 	Rw     string `json:"rw"`             // none | vhost | slashes | prefix
 	K      int    `json:"k"`              // rewriter parameter
 	Gzip   bool   `json:"gzip"`           // FS.Compress + Accept-Encoding: gzip
+	NoIdx  bool   `json:"noidx,omitempty"` // GenerateIndexPages = false
 	Target hlib.B `json:"target"`         // request target (path[?query])
 	Host   hlib.B `json:"host"`           // Host header
 	G      string `json:"g,omitempty"`    // generator class
@@ -72,13 +74,48 @@ func buildTree() {
 		must(os.MkdirAll(filepath.Dir(p), 0o755))
 		must(os.WriteFile(p, content(p), 0o644))
 	}
-	// sentinels OUTSIDE Root / CompressRoot: never to be served
-	for _, p := range []string{base + "/secret.txt", base + "/f.txt", base + "/index.html", "/tmp/verif_c23_secret.txt"} {
+	// sentinels OUTSIDE Root / CompressRoot: never to be served.  Besides plain neighbours there are SIBLINGS whose
+	// names extend the base name of Root / CompressRoot ("root-private/", "rootx", "root.bak/", "rootf.txt", ...):
+	// they have Root as a string prefix without being inside it.
+	for _, p := range []string{base + "/secret.txt", base + "/f.txt", base + "/index.html", "/tmp/verif_c23_secret.txt",
+		osRoot + "-private/secret.txt", osRoot + "-private/index.html", osRoot + "-private/sub/s.txt", osRoot + ".bak/f.txt", osRoot + ".bak/a/f.txt",
+		osRoot + "x", osRoot + "f.txt", osRoot + "a/f.txt", osRoot + "index.html", osRoot + "_old/noindex/z.txt", osRoot + "2/secret.txt",
+		osCRoot + "-private/secret.txt", osCRoot + "x", osCRoot + "f.txt", osCRoot + ".bak/f.txt"} {
+		must(os.MkdirAll(filepath.Dir(p), 0o755))
 		must(os.WriteFile(p, content(p), 0o644))
 	}
 	for _, p := range []string{osRoot + ".fasthttp.gz", osCRoot + ".fasthttp.gz"} {
 		must(os.WriteFile(p, gz(content(p)), 0o644))
 	}
+}
+
+// every directory of the sandbox gets a marker file naming it, so that a generated index page tells which
+// directory was listed; then the tree is published to the Coq side (absolute clean names).
+const dirMark = "zz-dir"
+
+func markAndList() (files, dirs []string) {
+	var ds []string
+	filepath.Walk(base, func(p string, info os.FileInfo, err error) error {
+		must(err)
+		if info.IsDir() {
+			ds = append(ds, p)
+		}
+		return nil
+	})
+	for _, d := range ds {
+		must(os.WriteFile(filepath.Join(d, dirMark+strings.ReplaceAll(d, "/", "=")), content(d+"/"+dirMark), 0o644))
+	}
+	filepath.Walk(base, func(p string, info os.FileInfo, err error) error {
+		must(err)
+		if info.IsDir() {
+			dirs = append(dirs, p)
+		} else {
+			files = append(files, p)
+		}
+		return nil
+	})
+	files = append(files, "/tmp/verif_c23_secret.txt")
+	return files, dirs
 }
 
 func must(err error) {
@@ -124,7 +161,7 @@ func run(d desc) hlib.Case {
 
 	ffs := &fasthttp.FS{
 		IndexNames:         []string{"index.html"},
-		GenerateIndexPages: true,
+		GenerateIndexPages: !d.NoIdx,
 		AcceptByteRange:    true,
 		Compress:           d.Gzip,
 		SkipCache:          true,
@@ -198,6 +235,17 @@ func run(d desc) hlib.Case {
 		servedPath = string(line)
 		served = hlib.Some(hlib.HexS(servedPath))
 	}
+	if status == 200 && servedPath == "" {
+		// a generated index page: which directory was listed?
+		if n := bytes.LastIndex(body, []byte(dirMark+"=")); n >= 0 && bytes.HasPrefix(body, []byte("<html><head><title>")) {
+			tok := body[n+len(dirMark):]
+			if m := bytes.IndexAny(tok, "<\"& ,"); m >= 0 {
+				tok = tok[:m]
+			}
+			servedPath = strings.ReplaceAll(string(tok), "=", "/")
+			served = hlib.Some(hlib.HexS(servedPath))
+		}
+	}
 	if hasRewritten {
 		workPath = rewritten
 	}
@@ -217,7 +265,7 @@ func run(d desc) hlib.Case {
 		openedHex = append(openedHex, hlib.HexS(n))
 	}
 	c := hlib.Case{Kind: kind(d), Size: len(d.Target)}
-	c.Coq = hlib.App("CFs", cfg, sfx, hlib.Hex(reqPath), hlib.Hex(host), rwObs, hlib.Z(int64(status)), hlib.List(openedHex), served)
+	c.Coq = hlib.App("CFs", cfg, hlib.Bool(!d.NoIdx), sfx, hlib.Hex(reqPath), hlib.Hex(host), rwObs, hlib.Z(int64(status)), hlib.List(openedHex), served)
 	shape := shapeSig(workPath)
 	c.Sig = kind(d) + "|" + strconv.Itoa(status) + "|" + shape + "|" + strconv.FormatBool(servedPath != "")
 	// (the former finding compress-root-sibling — compression negotiated for the root directory on the default
@@ -235,6 +283,9 @@ func kind(d desc) string {
 	}
 	if d.Gzip {
 		m += "+gz"
+	}
+	if d.NoIdx {
+		m += "+noidx"
 	}
 	k := ""
 	if d.Rw != "none" {
@@ -274,6 +325,9 @@ var toks = []string{"/", ".", "%2e", "%2f", "%5c", "\\", "%00", "%25", "a"}
 var segs = []string{"a", "b", "c", "f.txt", "g.txt", "index.html", ".", "..", "...", "..a", "a..", "%2e%2e", "%2e", ".%2e", "example.com", "invalid-host", "x",
 	"secret.txt", "root.fasthttp.gz", "%00", "a%00", "%252e%252e", "..%2f..", "..%5c..", "\\..\\", "", "noindex", "croot", "root"}
 var hosts = []string{"example.com", "example.com:8080", "EXAMPLE.com", "..", ".", "a/..", "../..", "", "x/../y", "a", "%2e%2e", "..%2f", "invalid-host", "[::1]", "a..", "..a", "a:b/c"}
+
+// tails that turn Root into the name of a sibling sentinel when appended without a separator
+var siblingTails = []string{"-private/secret.txt", "-private/", "x", ".bak/f.txt", "f.txt", "a/f.txt", "index.html", "-private/sub/", "_old/noindex/", "2/secret.txt", ".bak/", "-private", ".bak/a/"}
 
 type cfgv struct {
 	os, croot bool
@@ -325,6 +379,22 @@ func corpus() []desc {
 		for _, t := range short[:12] {
 			out = append(out, mk(c, true, t, "example.com", "dict-gz"))
 		}
+		if c.rw == "prefix" {
+			// prefix sizes that cut inside a segment: the rewritten path has no leading slash and, glued to Root
+			// without a separator, would name one of the sibling sentinels
+			pad := strings.Repeat("x", max(c.k-1, 0))
+			for _, t := range siblingTails {
+				out = append(out, mk(c, false, "/"+pad+t, "example.com", "sibling"))
+			}
+			for _, t := range siblingTails[:6] {
+				d := mk(c, true, "/"+pad+t, "example.com", "sibling-gz")
+				out = append(out, d)
+				d = mk(c, false, "/"+pad+t, "example.com", "sibling-noidx")
+				d.NoIdx = true
+				out = append(out, d)
+			}
+			out = append(out, mk(c, false, "/%78"+strings.Repeat("x", max(c.k-2, 0))+"-private//secret.txt", "example.com", "sibling"))
+		}
 		if c.rw == "vhost" && full {
 			for _, hst := range hosts {
 				for _, t := range []string{"/f.txt", "/../secret.txt", "/", "/%252e%252e/secret.txt"} {
@@ -352,6 +422,16 @@ func gen(r *rand.Rand, i int) desc {
 	if c.rw == "vhost" && r.Intn(2) == 0 {
 		host = hosts[r.Intn(len(hosts))]
 	}
+	noidx := r.Intn(6) == 0
+	if c.rw == "prefix" && r.Intn(3) == 0 { // aimed at the siblings of Root: cut inside a segment
+		pad := strings.Repeat("x", r.Intn(c.k%8+2))
+		if r.Intn(2) == 0 {
+			pad = strings.Repeat("x", max(c.k-1, 0))
+		}
+		d := mk(c, gzip, "/"+pad+siblingTails[r.Intn(len(siblingTails))], host, "sibling")
+		d.NoIdx = noidx
+		return d
+	}
 	switch r.Intn(3) {
 	case 0: // words over the property's alphabet
 		return mk(c, gzip, "/"+word(r, toks, 8), host, "word")
@@ -376,21 +456,34 @@ func gen(r *rand.Rand, i int) desc {
 		if r.Intn(4) == 0 {
 			t = filepath.Dir(t) + "/"
 		}
-		return mk(c, gzip, t, host, "detour")
+		d := mk(c, gzip, t, host, "detour")
+		d.NoIdx = noidx
+		return d
 	}
+}
+
+func coqNames(name string, l []string) string {
+	it := make([]string, len(l))
+	for i, x := range l {
+		it[i] = "(h \"" + hex.EncodeToString([]byte(x)) + "\"%string)"
+	}
+	return "Definition " + name + " : list bytes := " + hlib.List(it) + ".\n"
 }
 
 func main() {
 	buildTree()
 	defer os.RemoveAll(base)
+	files, dirs := markAndList()
 	hlib.Main(hlib.Prop[desc]{
 		ID:       "C23",
-		Imports:  "From FH Require Import Model.Base Model.FsPath Check.C23Check.",
+		Imports: "From FH Require Import Model.Base Model.FsPath Check.C23Check.\n" +
+			"(* the sandbox tree of this run (default-filesystem mode) *)\n" + coqNames("c23_files", files) + coqNames("c23_dirs", dirs),
 		CaseType: "c23case",
-		CorrOK:   "corr_ok",
+		CorrOK:   "(corr_ok c23_files c23_dirs)",
 		PropOK:   "prop_ok",
 		Rule: "every configuration in {default filesystem, default filesystem + CompressRoot, fs.FS with Root \"\", \".\", \"a\"} x {no rewriter, vhost 0/1/2, slashes 1/2/5, prefix 0/1/2/3/4/7/100} " +
-			"x a dictionary of traversal targets (encoded dots, slashes, backslashes, NUL, double encoding, sentinel names next to Root), with and without negotiated gzip, Host values with '/', '..', port for the vhost rewriter; " +
+			"x a dictionary of traversal targets (encoded dots, slashes, backslashes, NUL, double encoding, sentinel names next to Root), " +
+			"prefix-strip counts that cut inside a segment on targets whose remainder, glued to Root without '/', names a sibling sentinel (root-private/, rootx, root.bak/, rootf.txt, croot...), with and without GenerateIndexPages and negotiated gzip, Host values with '/', '..', port for the vhost rewriter; " +
 			"then random words over {/ . %2e %2f %5c \\ %00 %25 a}, segment lists aimed at the tree, and detours to existing files. A case is non-trivial when its (configuration, status, shape of the working path, served?) class is new",
 		Corpus:   corpus,
 		Gen:      gen,
